@@ -374,6 +374,12 @@ type didSnap struct {
 	Deactivated bool
 	VMs         []string // ids in the document the SQL resolver returns
 	Services    []string // fragment:type of services in the resolved document
+	// the version the manager reads as "current" (DIDDocumentManager.Latest: the latest version row with the verification-method and service rows it
+	// refers to). The resolver serves the stored document of that version; FindServices and every further operation (which builds the next version
+	// and what gets published from these rows) serve THIS view. "Shows its previous version" is demanded of both.
+	RowsErr     string
+	RowVMs      []string // id usage-flags hash(data) per verification-method row of the latest version
+	RowServices []string // fragment:type hash(data) per service row of the latest version
 	// did:nuts only: what the network side (didstore fed by the ambassador) resolves
 	NetErr      string
 	NetHash     string
@@ -386,6 +392,8 @@ type subjSnap struct {
 	Listed bool // ListDIDs returned a set
 	Exists bool // Manager.Exists
 	DIDs   []didSnap
+	// Manager.FindServices per service type that occurs in any view of any DID of the subject: type -> "service id hash(service)" (sorted)
+	Found map[string][]string `json:",omitempty"`
 }
 
 // nameView is what the manager says about one name.
